@@ -689,6 +689,11 @@ class Layouter:
             return
         if not self.active:
             return
+        if t == 'require':
+            # (only reached in a compiled branch) 'met' is decided by whoever wrote the item against the ISA identifier
+            if not item['met']:
+                raise Reject('unmet language requirement')
+            return
         if t == 'mute':
             self.mute += 1
             return
